@@ -214,7 +214,11 @@ func engineRT(rep *Report) {
 			in = make([]byte, r.Intn(24))
 			r.Read(in)
 			if r.Intn(3) == 0 { // adversarial lengths
-				in = protowire.AppendTag(nil, protowire.Number(1+r.Intn(100)), protowire.BytesType)
+				in = nil
+				for g := r.Intn(3); g > 0; g-- { // possibly inside (nested) groups
+					in = protowire.AppendTag(in, protowire.Number(1+r.Intn(100)), protowire.StartGroupType)
+				}
+				in = protowire.AppendTag(in, protowire.Number(1+r.Intn(100)), protowire.BytesType)
 				in = appendVarintN(in, advLens[r.Intn(len(advLens))], 10)
 				in = append(in, byte(r.Intn(256)))
 			}
